@@ -67,6 +67,22 @@ pub fn check(c: &Call, rep: &mut Report) {
             || c.encode(),
         );
     }
+    // a retry into the same buffer whose PEC slot was damaged in the meantime must again end with the PEC
+    if n >= 10 {
+        let mut init = obs.buf[..n + 2].to_vec();
+        init[n - 1] ^= 0xA5;
+        let (res, out) = invoke_aligned(c, &init, n & 7);
+        rep.eval();
+        if let Ok(Ok(m)) = res {
+            if m >= 10 && m <= out.len() && crc8(&out[..m - 1]) != out[m - 1] {
+                rep.violation(
+                    &format!("{}:pec-mismatch:retry-into-used-buffer", c.form.name()),
+                    || format!("re-encoding into a buffer that held the same packet with a damaged last byte: last byte {:#04x} != CRC-8 {:#04x}", out[m - 1], crc8(&out[..m - 1])),
+                    || c.encode(),
+                );
+            }
+        }
+    }
     if rep.want_sample() {
         rep.sample(|| sample_json(c, &obs));
     }
